@@ -54,12 +54,16 @@ def _cases(draw):
     t0 = draw(eop_instants(margin_days=3))
     kind = draw(st.sampled_from(["optical", "radar", "adv_radar"]))
     host = draw(st.sampled_from(["ground", "ground", "space"]))
-    probe = draw(st.sampled_from(["uniform", "uniform", "el_edge", "az_edge", "range_edge", "fov_edge", "slew_edge", "zenith", "az_seam", "low"]))
+    probe = draw(st.sampled_from(["uniform", "uniform", "el_edge", "az_edge", "range_edge", "fov_edge", "slew_edge", "zenith", "az_seam", "low", "limb_edge"]))
+    if probe == "limb_edge":
+        host, kind = "space", "optical"  # a target seen just above / through the atmosphere band at the Earth's limb (an optical rule)
     dt = draw(st.sampled_from([30, 60]))
     az0 = draw(st.floats(0, 360, exclude_max=True))
     azw = draw(st.one_of(st.floats(20, 359.9), st.just(359.9999)))
     el0 = draw(st.floats(-5, 40)) if host == "ground" else draw(st.floats(-80, 10))
     elw = draw(st.floats(20, 89.9 - el0))
+    if probe == "limb_edge":
+        el0, elw = -85.0, 170.0
     fov = draw(st.sampled_from([{"fov_shape": "conic", "cone_angle": a} for a in (1.0, 4.0, 30.0, 179.0)] +
                                [{"fov_shape": "rectangular", "azimuth_angle": a, "elevation_angle": b} for a, b in ((1.0, 1.0), (6.0, 3.0), (40.0, 20.0))]))
     case = {
@@ -74,6 +78,10 @@ def _cases(draw):
         "tx_power": draw(st.sampled_from([2.5e6, 6e4, 1e3])), "vcs": draw(st.sampled_from([1.0, 10.0, 100.0])), "vismag": draw(st.sampled_from([25.0, 14.0, 8.0])),
         "noise": draw(st.booleans()), "corr": draw(st.sampled_from([0.0, 0.0, 0.6, -0.8])),
     }
+    if probe == "limb_edge":
+        # keep the other constraints out of the way: reachable slew, wide field of view, no range limits
+        case.update(slew=30.0, bore_off=0.05, max_range=None, min_range=None, est_off=0.0, vismag=25.0, vcs=100.0,
+                    fov={"fov_shape": "conic", "cone_angle": 30.0})
     return case
 
 
@@ -246,6 +254,12 @@ def _place(c, t1):
         az = (eps * 0.1) % TWOPI
     elif p == "low":
         el = math.radians(-3.0 + 6.0 * u[3])
+    elif p == "limb_edge":
+        r_s = float(np.linalg.norm(sensor_t1[:3]))
+        shell = Earth.radius + Earth.atmosphere
+        # elevation of the top of the atmosphere as seen from the sensor, approached from above and (inside the band) from below
+        el = math.asin(shell / r_s) - PI / 2 + (-abs(eps) if u[1] < 0.5 else abs(eps)) * (1.0 if u[3] < 0.5 else 10.0)
+        rho = math.sqrt(max(r_s * r_s - shell * shell, 1.0)) * (1.45 + 0.8 * u[2])  # beyond the tangent point, above 150 km again
     el = max(-PI / 2 + 0.02, min(PI / 2 - 1e-7, el))
     return sensor_t1, az, el, rho
 
@@ -391,6 +405,8 @@ def collect(c, rec):
     if close5 or non_fov_fail:
         rec.nontrivial([c["kind"], c["host"], tuple(sorted(fails)), c["fov"]["fov_shape"], c["probe"], round(az, 1), round(el, 1)])
     rec.label(f"{c['kind']}/{c['host']}")
+    if c["probe"] == "limb_edge":
+        rec.label("limb_probe:" + ("only_limb_fails" if fails == ["limb"] else ("nothing_fails" if not fails else "other_constraints_fail")))
     # every returned observation satisfies all constraints
     seen_pairs = set()
     for ob in obs_list:
